@@ -1,0 +1,37 @@
+//go:build verif
+// +build verif
+
+package portmapping
+
+// This file is only compiled with the "verif" build tag. It adds observation and interleaving points for the
+// verification harness in /verif and changes no behaviour of the package.
+
+type verifCloser struct {
+	closeable
+	after func()
+}
+
+func (v verifCloser) Close() error {
+	err := v.closeable.Close()
+	v.after()
+	return err
+}
+
+// VerifAfterClose makes after run right after each host port socket currently held for the pod has been closed
+// (in the goroutine that closes it). It returns the number of sockets held for the pod.
+func (h *PortMappingHandler) VerifAfterClose(podFullName string, after func()) int {
+	h.Lock()
+	defer h.Unlock()
+	ports := h.podPortMap[podFullName]
+	for hp, c := range ports {
+		ports[hp] = verifCloser{closeable: c, after: after}
+	}
+	return len(ports)
+}
+
+// VerifHeld returns the number of host port sockets the handler holds for the pod.
+func (h *PortMappingHandler) VerifHeld(podFullName string) int {
+	h.Lock()
+	defer h.Unlock()
+	return len(h.podPortMap[podFullName])
+}
